@@ -340,6 +340,36 @@ func checkC16(c CaseC16, info *Info) *Failure {
 	if f := checkSorted(x1); f != nil {
 		return f
 	}
+	// with an explicit root tag (also one that equals a key of the Map) the two encoders still agree
+	rts := []string{"doc"}
+	if len(m) > 0 {
+		if k := sortedKeys(m)[len(m)/2]; !specialKey(k) {
+			rts = append(rts, k)
+		}
+	}
+	for _, rt := range rts {
+		xr, er := mxj.Map(m).Xml(rt)
+		xr2, _ := mxj.Map(m2).Xml(rt)
+		xri, eri := mxj.Map(m3).XmlIndent(c.Prefix, c.Ind, rt)
+		if er != nil || eri != nil {
+			continue
+		}
+		if !bytes.Equal(xr, xr2) {
+			return failf("xml-not-deterministic", "Xml(%q) of equal Maps:\n%q\n%q", rt, xr, xr2)
+		}
+		tr, e1 := rawTokens(xr)
+		tri, e2 := rawTokens(xri)
+		if e1 != nil && e2 != nil {
+			continue // the value itself is not encodable as well-formed XML (e.g. an attribute entry at the root)
+		}
+		if ok, at := toksEqual(tr, tri); e1 != nil || e2 != nil || !ok {
+			return failf("indent-differs-from-compact", "root tag %q, token %d:\n%q\n%q", rt, at, xr, xri)
+		}
+		var wr chunkWriter
+		if err := mxj.Map(m).XmlWriter(&wr, rt); err != nil || !bytes.Equal(wr.Bytes(), xr) {
+			return failf("writer-mismatch", "XmlWriter(root %q) wrote %q, Xml returned %q", rt, wr.Bytes(), xr)
+		}
+	}
 	var w chunkWriter
 	if err := mxj.Map(m).XmlWriter(&w); err != nil || !bytes.Equal(w.Bytes(), x1) {
 		return failf("writer-mismatch", "XmlWriter wrote %q, Xml returned %q (%v)", w.Bytes(), x1, err)
